@@ -17,6 +17,21 @@ CHECKS = {
     ),
 }
 
+CHECKS.update({
+    "C11": (
+        "Hypothesis-generated circuits; independent recomputation of classical runs + bit-parallel reversible simulation of all basis states vs own evaluation of the reported expressions",
+        "Generated circuits (classical runs interleaved with non-classical gates and barriers in every position) are decompiled; section count, section gates, index ranges and the meaning of every reported expression are compared with an independent run splitter and reversible simulator on all 2^n entry states. Sampled over circuits (<=5 qubits), exhaustive over basis states.",
+        "Trusts vlib.boolsem / vlib.sims (both cross-checked elsewhere); barriers at the edge of an index range are tolerated; I and MCtrl(X) objects are outside the stated gate list.",
+        "DESIGN.md section 3 C11",
+    ),
+    "C14": (
+        "Hypothesis-generated operation histories over a pool of circuits judged against a numpy unitary model (model-based), plus generated remove_identities and qft/iqft cases",
+        "Histories of append_circuit/+/+=/repeat/copy and user mutations are applied to real circuits and to a matrix model (embedding, product, power); after every step the result's unitary must equal the model and every object the operation does not own must have an unchanged gate list. remove_identities must keep the unitary; iqft must undo qft on any injective qubit list. Sampled histories on <=4 (qft: <=6) qubits.",
+        "Trusts the dense simulator (validated against qiskit); repeat(0) is read as the empty circuit; aliasing through bare gate tuples passed to += is not claimed.",
+        "DESIGN.md section 3 C14",
+    ),
+})
+
 NOT_YET = "check not built yet in this session (work in progress; see DESIGN.md section 3)"
 
 
